@@ -195,7 +195,11 @@ func main() {
 				total-- // not counted
 				continue
 			}
-			if o.Verdict == "REFUTED" {
+			if o.Verdict == "SOLVER-ERROR" {
+				fmt.Printf("BROKEN-CHECK solver rejected the VC of %s: %s\n", o.Name, strings.SplitN(o.Output, "\n", 2)[0])
+				broken = true
+				total--
+			} else if o.Verdict == "REFUTED" {
 				violations = append(violations, o)
 			} else {
 				undecided = append(undecided, o)
